@@ -11,9 +11,16 @@ Where several started threads wait for a free lock the operating system picks on
 explores every choice and prints the alternatives separated by ` | ` (the harness observation must be
 one of them).
 
+Reply fault `fault=<k>:<kind>`: `Cfg.fault k` = `close` for kind `close`, `bad` for `code` / `noreply` / `fd`
+(the transition system does not care why the reader refuses the reply).  A caller whose `err` flag is set
+(faulty reply, end-of-file, dead socket, local rejection) returned an error; in fault scenarios every error
+result is printed as plain `err`, as the harness does.
+
 Stress line: `locks ep=.. ack=.. stress=<threads>x<calls> seed=<hex>`: by `own_reply`/`all_complete`
 every call gets the reply to its own request under every schedule, so the prediction (per-thread
-ok/err counts of the LCG-drawn calls, number of requests) does not depend on the schedule.
+ok/err counts of the LCG-drawn calls, number of requests) does not depend on the schedule.  With
+`fault=<tag>:<kind>` every reply to a request with that tag is faulty: by `faulty_call_returns_error` /
+`others_unaffected_by_faulty_reply` exactly those calls return an error instead.
 -/
 namespace Drv.Locks
 open Model.Locks Spec.Locks
@@ -157,7 +164,7 @@ def pcIs (s : St) (i : Nat) (p : PC) : Bool := decide (s.pc i = p)
 
 /-- the label the lock holder takes next, `none` if it is parked at its hold point (or finished) -/
 def nextLbl (c : Cfg) (h : H) (i : Nat) : Option Lbl :=
-  if pcIs h.st i .locked then some (if c.sends i then .send i else .release i)
+  if pcIs h.st i .locked then some (if c.sends i ∧ ¬ h.st.closed then .send i else .release i)
   else if pcIs h.st i .sent then
     if parks c i ∧ ¬ h.released.contains i then none
     else some (if c.reads i then .recv i else .release i)
@@ -215,7 +222,10 @@ def applyEvent (c : Cfg) (fuel : Nat) (ev : String) (h : H) : List H :=
       (settle c fuel h1).map fun h2 => { h2 with snaps := h2.snaps ++ [snapOf c ev h2] }
   | [] => []
 
-def finalObs (c : Cfg) (calls : List Call) (h : H) : String :=
+/-- in fault scenarios every error result is printed as `err` -/
+def collapse (e : String) : String := if e.startsWith "err" then "err" else e
+
+def finalObs (c : Cfg) (hasFault : Bool) (calls : List Call) (h : H) : String :=
   let order := h.st.trace.filterMap fun e =>
     match e with
     | .req i => (calls[i]?).map (·.tag)
@@ -225,19 +235,45 @@ def finalObs (c : Cfg) (calls : List Call) (h : H) : String :=
     | none => "none"
     | some cl =>
       if pcIs h.st i .done then
-        (if c.reads i then (if h.st.got i == some i then cl.exp else "wrong") else cl.exp)
+        if hasFault then
+          (if h.st.err i then "err"
+           else if c.reads i then (if h.st.got i == some i then collapse cl.exp else "wrong") else collapse cl.exp)
+        else
+          (if c.reads i then (if h.st.got i == some i then cl.exp else "wrong") else cl.exp)
       else "none"
   let done := String.ofList ((List.range c.n).map fun i => if pcIs h.st i .done then '1' else '0')
   "snaps=" ++ String.intercalate "," h.snaps ++
   " order=" ++ (if order.isEmpty then "-" else String.intercalate "," order) ++
   " got=" ++ String.intercalate "," got ++ " done=" ++ done
 
-def runSched (ep : String) (ack : Bool) (tags : List String) (sched : List String) : String :=
+/-- `<k>:<kind>` -/
+def parseFault (f : String) : Option (Nat × Fault) :=
+  match f.splitOn ":" with
+  | [k, kind] =>
+    match k.toNat?, kind with
+    | some i, "close" => some (i, .close)
+    | some i, "code" => some (i, .bad)
+    | some i, "noreply" => some (i, .bad)
+    | some i, "fd" => some (i, .bad)
+    | _, _ => none
+  | _ => none
+
+def runSched (ep : String) (ack : Bool) (tags : List String) (sched : List String) (fault : Option String) : String :=
   match tags.mapM (callOf ep ack) with
   | none => "bad-call"
   | some calls =>
     let kinds := calls.map (·.kind)
-    let c : Cfg := ⟨calls.length, fun i => (kinds[i]?).getD .rejected, ack⟩
+    let flt : Option (Option (Nat × Fault)) := fault.map parseFault
+    if flt == some none then "bad-fault" else
+    let fk : Option (Nat × Fault) := flt.join
+    let badIdx : Bool := match fk with
+      | some (k, _) => decide (k ≥ calls.length) || decide ((tags.filter (· == tags[k]?.getD "")).length ≠ 1)
+      | none => false
+    if badIdx then "bad-fault" else
+    let c : Cfg := { n := calls.length, kind := fun i => (kinds[i]?).getD .rejected, ackMode := ack,
+                     fault := fun i => match fk with
+                       | some (k, f) => if i = k then f else .none
+                       | none => .none }
     let fuel := 10 * c.n + 10
     let h0 : H := ⟨init, [], [], []⟩
     let hs := sched.foldl (fun acc ev => acc.flatMap (applyEvent c fuel ev)) [h0]
@@ -245,7 +281,7 @@ def runSched (ep : String) (ack : Bool) (tags : List String) (sched : List Strin
     let hs := hs.flatMap fun h =>
       (settle c fuel { h with released := List.range c.n }).map fun h2 =>
         { h2 with snaps := h2.snaps ++ [snapOf c "end" h2] }
-    let obs := (hs.map (finalObs c calls)).eraseDups
+    let obs := (hs.map (finalObs c fk.isSome calls)).eraseDups
     if obs.isEmpty then "bad-schedule" else String.intercalate " | " obs
 
 /-! ### stress prediction -/
@@ -276,7 +312,8 @@ def threadCounts (calls : Array Call) : Nat → UInt64 → Nat × Nat × Nat →
       threadCounts calls k x' (if isOk then ok + 1 else ok, if isOk then err else err + 1,
                                if sends then reqs + 1 else reqs)
 
-def runStress (ep : String) (ack : Bool) (spec : String) (seed : String) (only : Option String) : String :=
+def runStress (ep : String) (ack : Bool) (spec : String) (seed : String) (only : Option String)
+    (fault : Option String) : String :=
   match spec.splitOn "x", hexNat? seed.toList with
   | [a, b], some sd =>
     match a.toNat?, b.toNat? with
@@ -286,6 +323,11 @@ def runStress (ep : String) (ack : Bool) (spec : String) (seed : String) (only :
       match tags.mapM (callOf ep ack) with
       | none => "bad-call"
       | some calls =>
+        -- every reply to a request with the faulted tag is faulty: that call returns an error
+        let ftag : Option String := fault.bind fun f => (f.splitOn ":").head?
+        let readsOf (k : Kind) : Bool := match k with | .reply => true | .ack => ack | _ => false
+        let calls := calls.map fun cl =>
+          if some cl.tag == ftag ∧ readsOf cl.kind then { cl with exp := "err" } else cl
         let arr := calls.toArray
         let per_t := (List.range threads).map fun t =>
           threadCounts arr per (UInt64.ofNat sd * 0x9E3779B97F4A7C15 + UInt64.ofNat t) (0, 0, 0)
@@ -302,11 +344,11 @@ def run (toks : List String) : String :=
   | some ep =>
     let ack := kvOf toks "ack" == some "1"
     match kvOf toks "stress" with
-    | some sp => runStress ep ack sp ((kvOf toks "seed").getD "1") (kvOf toks "only")
+    | some sp => runStress ep ack sp ((kvOf toks "seed").getD "1") (kvOf toks "only") (kvOf toks "fault")
     | none =>
       match kvOf toks "calls", kvOf toks "sched" with
       | some cs, some sc =>
-        runSched ep ack (cs.splitOn ",") ((sc.splitOn ",").filter fun e => e ≠ "" ∧ e ≠ "-")
+        runSched ep ack (cs.splitOn ",") ((sc.splitOn ",").filter fun e => e ≠ "" ∧ e ≠ "-") (kvOf toks "fault")
       | _, _ => "bad-line"
 
 end Drv.Locks
